@@ -783,7 +783,7 @@ fn c07_reach<B: Fld>(run: &Arc<Run>) {
     };
     let render2 = render.clone();
     let (ops2, seconds2) = (ops.clone(), seconds.clone());
-    let stats = bfs(
+    let stats = kit::engine::bfs_r(
         run,
         &format!("{}.reach", B::NAME),
         init,
@@ -831,7 +831,16 @@ fn c07_reach<B: Fld>(run: &Arc<Run>) {
             succ
         },
         |s: &RState| (s.img, s.res),
-        move |s: &RState| json!({"history": render2(s), "image": format!("{:#x}", s.img), "residue": format!("{:#x}", s.res)}),
+        move |s: &RState| json!({"history": render2(s), "image": format!("{:#x}", s.img), "residue": format!("{:#x}", s.res), "replay": {"img": format!("{:x}", s.img), "res": format!("{:x}", s.res), "hist": s.hist[..s.hlen as usize].to_vec()}}),
+        |v: &Value| {
+            let r = &v["replay"];
+            let img = u128::from_str_radix(r["img"].as_str()?, 16).ok()?;
+            let res = u128::from_str_radix(r["res"].as_str()?, 16).ok()?;
+            let h: Vec<u8> = r["hist"].as_array()?.iter().filter_map(|x| x.as_u64().map(|y| y as u8)).collect();
+            let mut hist = [0u8; 7];
+            hist[..h.len().min(7)].copy_from_slice(&h[..h.len().min(7)]);
+            Some(RState { img, res, hist, hlen: h.len().min(7) as u8 })
+        },
     );
     run.note(&format!("reach:{}", B::NAME), json!({"depth_checked": stats.depth_completed, "states": stats.states, "operations": ops.len()}));
 }
@@ -1125,10 +1134,12 @@ fn main() {
             subs.extend(c07_subs::<f62::BaseElement>(&run));
             subs.extend(c07_subs::<f128::BaseElement>(&run));
             if let Some(p) = run.args.replay.clone() {
-                run.replay(&subs, &p);
-            }
-            for s in subs {
-                run.explore(s);
+                // returns only for a level of the reachability search, which the search itself replays
+                run.try_replay(&subs, &p);
+            } else {
+                for s in subs {
+                    run.explore(s);
+                }
             }
             c07_reach::<g64::BaseElement>(&run);
             c07_reach::<f62::BaseElement>(&run);
